@@ -460,7 +460,23 @@ Definition msgdesc_ok (sc : schema) (fs : msgdesc) : bool :=
   && forallb tag_okb (flat_map field_tags fs)
   && nodupZ (flat_map field_tags fs).
 
-Definition schema_ok (sc : schema) : bool := forallb (msgdesc_ok sc) sc.
+(* no by-value cycle of REQUIRED message fields (proto2 `required M m`, a bare -- boxed -- M in the struct): the derived
+   Default of such a struct does not terminate (finding F-10a: `message A { required A a = 1; }` is accepted by pilota-build
+   and A::default(), hence every decode, overflows the stack).  [req_ok f sc i]: every chain of required fields from
+   message #i is shorter than f; with f = |sc| + 1 a longer chain would repeat a message. *)
+Fixpoint req_ok (fuel : nat) (sc : schema) (i : nat) : bool :=
+  match fuel with
+  | O => false
+  | S f =>
+      match nth_error sc i with
+      | Some fs => forallb (fun fld => match fld with FSingular _ (TMsg j) => req_ok f sc j | _ => true end) fs
+      | None => true
+      end
+  end.
+
+Definition required_acyclic (sc : schema) : bool := forallb (req_ok (S (length sc)) sc) (seq 0 (length sc)).
+
+Definition schema_ok (sc : schema) : bool := forallb (msgdesc_ok sc) sc && required_acyclic sc.
 
 (* ---------------------------------------------------------------- well-known wrapper impls (pilota/src/prost/types.rs) *)
 (* impl Message for bool / u32 / u64 / i32 / i64 / f32 / f64 / String / Vec<u8> / Bytes: field 1 goes through
